@@ -6,6 +6,7 @@ import (
 	"fmt"
 	"sync"
 
+	"berty.tech/go-orbit-db/verifhook"
 	"github.com/libp2p/go-libp2p/core/event"
 	"github.com/libp2p/go-libp2p/p2p/host/eventbus"
 )
@@ -123,6 +124,8 @@ func (e *EventEmitter) handleSubscriber(ctx context.Context, sub event.Subscript
 				e = box.evt
 			}
 
+			verifhook.Point("emit.reader", e)
+
 			condProcess.L.Lock()
 			if queue.Len() == 0 {
 				// try to push event to the queue
@@ -147,6 +150,8 @@ func (e *EventEmitter) handleSubscriber(ctx context.Context, sub event.Subscript
 	go func() {
 		condProcess.L.Lock()
 		for ctx.Err() == nil {
+			verifhook.CondYield(condProcess.L, "emit.drainTop", nil)
+
 			if queue.Len() == 0 {
 				condProcess.Wait()
 				continue
@@ -156,6 +161,8 @@ func (e *EventEmitter) handleSubscriber(ctx context.Context, sub event.Subscript
 
 			// Unlock cond mutex while sending the event
 			condProcess.L.Unlock()
+
+			verifhook.Point("emit.drainSend", e)
 
 			select {
 			case <-ctx.Done():
